@@ -111,11 +111,12 @@ CHECKS["C03"] = {
 CHECKS["C02"] = {
     "category": "model_checking",
     "technique": MC + " (history BFS with canonical-state dedup; oracle counts_as_change(mode, old, new) on stored objects)",
-    "text": "For 11 trait kinds (Any, Int, Str, Float, List, Instance, AdaptsTo, Supports, Expression, Event, "
-            "Event(Int)) x comparison modes none/identity/equality x 7 'which handler raises' variants: every "
+    "text": "For 12 trait kinds (Any, Int, Str, Float, List, Instance, AdaptsTo, Supports, Expression, Event, "
+            "Event(Int), an Event reached through PrototypedFrom) x comparison modes none/identity/equality x 7 'which handler raises' variants: every "
             "history up to depth 3 (4 thorough) of assignments from a pool (equal-but-not-identical objects, two NaN "
-            "objects, a value whose == raises, converted and rejected values) and default reads; after each step "
-            "all six handlers (static _x_changed, _anytrait_changed, two on_trait_change, two observe) must have "
+            "objects, a value whose == raises, values whose repr raises, converted and rejected values) and default reads; after each step "
+            "all seven handlers (static _x_changed in the class and _x_fired inherited from a base class, "
+            "_anytrait_changed, two on_trait_change, two observe) must have "
             "been called exactly once iff the statement's rule counts the step as a change, with old the object "
             "stored before and new the object stored after; nothing for rejected assignments and default reads; "
             "Events always with old Undefined; a raising handler changes nothing for the others.",
@@ -126,8 +127,9 @@ CHECKS["C02"] = {
 CHECKS["C08"] = {
     "category": "model_checking",
     "technique": MC + " (history BFS over graph mutations with canonical graph+notifier-fingerprint dedup; reachability interpreter as oracle; probe of every object after every history)",
-    "text": "18 observe expressions (series, '.'/':' links, list/dict/set items, nested containers, parallel branches, "
-            "lazy default, metadata filter as last and as intermediate link, anytrait, container-change targets) on "
+    "text": "21 observe expressions (series, '.'/':' links, list/dict/set items, nested containers, parallel branches, "
+            "lazy default, metadata filter as last link, as intermediate link and over containers, nested lists, "
+            "anytrait, container-change targets, re-definition of an observed trait by add_trait) on "
             "a pool of 3 interlinked objects: every history up to depth 4 (5 thorough) over the expression's event "
             "menu (link reassignment incl. self => cycles, every list mutator incl. duplicates, extended-slice "
             "delete, *=, equal and unequal whole-list reassignment, dict set/del, set add/discard, default "
@@ -142,23 +144,25 @@ CHECKS["C08"] = {
 CHECKS["C09"] = {
     "category": "model_checking",
     "technique": MC + " (history BFS with dedup on counters+graph+notifier fingerprint; injected failing registrations; explicit GC events)",
-    "text": "Every history up to depth 3 (4 thorough) over ~48 events: add/remove of 12 (handler, expression, "
-            "dispatch) registrations (function and bound method, 4 expressions, same/ui), 9 graph mutations, 10 "
+    "text": "Every history up to depth 3 (4 thorough) over ~54 events, on plain nodes, on nodes that all compare equal "
+            "and on falsy nodes: add/remove of 15 (handler, expression, dispatch, root) registrations (function and "
+            "bound method, 4 expressions, same/ui, two roots), 9 graph mutations, 10 "
             "registrations that fail at different positions of the walk (child, grandchild, k-th list item, second "
             "parallel branch, second expression of a list, non-container where a container is required), 3 failing "
             "removals, garbage collection of the bound method's owner and of an observed object. After every "
             "history: a change calls each handler once per distinct dispatcher whose registration count is >0 and "
             "reaches the object (reachability interpreter); removal at count 0 raises NotifierNotFound; when all "
             "counts are 0 no observer notifier is left anywhere; every raising registration/removal leaves the "
-            "whole-pool notifier fingerprint (kind, ref-count per object/trait/container) identical; weak "
+            "whole-pool notifier fingerprint (kind, ref-count per object/trait incl. trait_added/container) identical; weak "
             "references to collected owner/object are dead and later changes neither raise nor call.",
     "note": "main-thread dispatch; 3-object pool, 2 handlers; depth 3/4",
 }
 CHECKS["C12"] = {
     "category": "model_checking",
     "technique": MC + " (history BFS with dedup on graph+values+cache contents+notifier fingerprint; independent recomputation as oracle)",
-    "text": "Seven observed properties (cached and uncached, scalar, Instance link, list/dict/set items, nested "
-            "path, a subclass overriding an inherited plain getter with a cached one) on a pool of 3 objects; every "
+    "text": "Eight observed properties (cached and uncached, scalar, Instance link, list/dict/set items, nested "
+            "path, a subclass overriding an inherited plain getter with a cached one, one whose only listener is an anytrait "
+            "handler) on a pool of 3 objects; every "
             "history up to depth 3 (4 thorough) over ~55 events: dependency mutations incl. duplicates/sharing/"
             "whole-list assignment with duplicates, scalar changes on every object, explicit cache-filling reads, "
             "static handlers that read cached properties, and pickle / deepcopy / clone_traits of the pool at any "
@@ -172,11 +176,13 @@ CHECKS["C12"] = {
 CHECKS["C16"] = {
     "category": "model_checking",
     "technique": MC + " (history BFS on tree-shaped graphs with dedup; reachability interpreter + differential agreement legacy vs observe)",
-    "text": "Seven (legacy extended name, observe expression) pairs ('.'/':' links, two-level chains, list and dict "
+    "text": "Seven (legacy extended name, observe expression) pairs, each on plain nodes, on all-equal nodes and with "
+            "only two bound-method handlers, ('.'/':' links, two-level chains, list and dict "
             "container links, nested) registered through both APIs on the same root; every history up to depth 4 (5 "
             "thorough) over tree-preserving mutations of the first three objects (fresh object at every insertion: "
-            "child reassignment, list append/insert/pop/del/slice/whole-value, dict set/del) and removal of the "
-            "registration; after every history the final attribute of every object ever created is written: the "
+            "child reassignment, list append/insert/pop/del/slice/whole-value/reverse/member-reusing reassignment, "
+            "dict set/del/update replacing and inserting at once), collection of a bound-method owner, removal of an "
+            "unrelated registration under another name and removal of the registration; after every history the final attribute of every object ever created is written: the "
             "legacy handler must be called exactly once iff the object is currently reachable along the name "
             "(interpreter) and the observe handler must agree; link reassignments must be reported for '.' links "
             "and never for ':' links; after removal nothing is called.",
@@ -218,11 +224,13 @@ CHECKS["C11"] = {
 CHECKS["C13"] = {
     "category": "model_checking",
     "technique": MC + " (history BFS with fresh class hierarchies per execution; independent resolver + twin-hierarchy differential + explicit policy clauses)",
-    "text": "Three base kinds (HasTraits, HasStrictTraits, HasPrivateTraits) x 13 names (exact matches, names equal to "
+    "text": "Three base kinds (HasTraits, HasStrictTraits, HasPrivateTraits) x 15 names (exact matches, names equal to "
             "a wildcard prefix, names matching one or two wildcard prefixes, private names, undeclared names) on a "
-            "base class declaring Int/ReadOnly/Constant/Event and two wildcards and a subclass declaring a longer "
-            "wildcard and re-declaring one trait. Every history up to depth 5 (6 thorough) over get / set(int) / "
-            "set(str) / set(None) / del / add_trait / remove_trait on an instance of each class, with *definition "
+            "base class declaring Int/ReadOnly/Constant/Event and two wildcards a subclass declaring a longer "
+            "wildcard and re-declaring one trait, and a multiple-inheritance subclass whose wildcards come from its "
+            "second base only. Every history up to depth 4 (5 thorough) over get / set(int) / "
+            "set(str) / set(None) / del / add_trait / a second add_trait without removal / remove_trait on an "
+            "instance of each class, with *definition "
             "of the subclass* as an event. Each step must give the same outcome class and value as on a twin "
             "hierarchy in which the governing trait (per an independent resolver: instance trait > declared > "
             "longest wildcard > class default) is declared explicitly, and must satisfy the statement's policy "
@@ -235,8 +243,9 @@ CHECKS["C13"] = {
 CHECKS["C20"] = {
     "category": "model_checking",
     "technique": MC + " (history BFS with dedup on values+link graph+liveness; directed link graph with transitive propagation as reference; explicit GC events; internal handler exceptions captured)",
-    "text": "Three objects with two Int and two List(Int) traits; every history up to depth 3 (4 thorough) over ~90 "
-            "events: sync/unsync in 8 styles (mutual, one-way, alias, second partner; scalar and list), scalar "
+    "text": "Three objects with two Int and two List(Int) traits and a Property whose setter refuses one value with "
+            "ValueError; every history up to depth 3 (4 thorough) over ~95 "
+            "events: sync/unsync in 9 styles (mutual, one-way, alias, second partner; scalar and list), scalar "
             "assignments on every side, 15 list mutators on four lists (incl. extended-slice set/delete with positive "
             "and negative step, +=, *=, sort, reverse, clear, whole-value), garbage collection of a partner. After "
             "each step everything reachable along link direction from the changed attribute must equal it, "
@@ -270,13 +279,13 @@ CHECKS["C14"] = {
 CHECKS["C15"] = {
     "category": "exploration",
     "technique": "bounded exhaustive enumeration of grammar derivations and of raw strings against an independent recogniser + denotation",
-    "text": "(i) every derivation of the documented grammar with up to 8 (10 thorough) tokens over names a/b/items, "
+    "text": "(i) every derivation of the documented grammar with up to 9 (11 thorough) tokens over names a/b/items, "
             "+metadata, *, '.', ':', ',', brackets; each must be accepted by parse/compile and the compiled "
             "ObserverGraphs, flattened to the set of observed paths (node kind, name, notify, optional), must equal "
             "the denotation computed by an independent recursive-descent recogniser written from the manual's tables "
             "(notify iff last or followed by '.', 'items' = trait named items / dict / list / set items, all "
             "optional; '*' only in terminal position incl. inside terminal brackets); parsing twice must give equal "
-            "patterns; four equivalent spellings (spaces, newlines, outer brackets, double brackets) must compile to "
+            "patterns; compile_str must decide and compile exactly as parse + compile do; four equivalent spellings (spaces, newlines, outer brackets, double brackets) must compile to "
             "equal patterns and removal by one spelling must exactly undo registration by another (notifier "
             "fingerprint back to baseline). (ii) every string of up to 5 (6) symbols over a 13-symbol alphabet "
             "(incl. space, newline, a digit): accepted iff the recogniser accepts, same meaning; otherwise "
@@ -290,14 +299,14 @@ CHECKS["C17"] = {
     "text": "Four type universes (linear 3-level hierarchy + intermediates, diamond with multiple inheritance, ABCs "
             "with virtual registration, a target whose instances are falsy): every sequence (multiset in every "
             "registration order, duplicates and cycles included) of up to 3 offers (linear) / 2 (others) (+1 "
-            "thorough) over all ordered type pairs x {adapter, conditional factory returning None}, for every source "
+            "thorough) over all ordered type pairs x {adapter, conditional factory returning None, conditional factory refusing the bare source}, for every source "
             "type and target, on a fresh AdaptationManager: adapt returns the object itself when it provides the "
             "protocol; otherwise an adapter iff a brute-force search finds a chain of distinct applicable offers "
             "whose factories all succeed, else AdaptationError / the supplied default; the chain actually used "
             "(recorded by instrumented factories) is one of the valid chains, has minimum length, and no "
             "single-step offer for a base type is used when one for its subclass would do. For all sequences of up "
             "to 2 offers Supports, AdaptsTo, Instance(adapt='yes') and BaseInstance(adapt='yes') assignment (global "
-            "manager swapped in) must give the same verdict, stored value and shadow value, and re-assigning the "
+            "manager swapped in) must give the same verdict, stored value and shadow value, AdaptsTo reached through PrototypedFrom must store the original, and re-assigning the "
             "same object after a new offer was registered must refresh the AdaptsTo shadow.",
     "note": "<=3/4 offers; factories without side effects or adaptee-dependent conditions; ties between unrelated "
             "source types are free",
@@ -305,12 +314,13 @@ CHECKS["C17"] = {
 CHECKS["C19"] = {
     "category": "model_checking",
     "technique": "exhaustive single-fault enumeration: every user-callback invocation of every scenario raises each of 4 exception classes on freshly rebuilt objects; pre-state / fault-free-twin comparison",
-    "text": "42 operations with user callbacks (custom TraitType.validate on assignment, trait_set, trait_setq, "
+    "text": "51 operations with user callbacks (custom TraitType.validate on assignment, trait_set, trait_setq, "
             "quiet trait_set and constructor; second alternative of a Union; _name_default and factory defaults on "
             "read and on del; property getter, setter, validator and cached getter; List/Dict/Set item, key and value "
             "validators at every item of append/extend/insert/slice/+=/update/|=/^=/setdefault/whole-value "
             "assignment, on trait values and on raw TraitList/TraitDict/TraitSet; adapter factories 1..3 of a chain; "
-            "filter callables of match() during observe registration and removal; static, on_trait_change, observe "
+            "filter callables of match() during observe registration and removal, alone and as the second of two "
+            "parallel graphs; a failing handler combined with a value whose repr raises; static, on_trait_change, observe "
             "and items change handlers) x 2 pre-states. A fault-free run counts the callback invocations n; for every "
             "k<=n and each of TraitError/ValueError/AttributeError/RuntimeError the k-th invocation raises. "
             "Outcome-deciding callbacks: the caller gets the injected exception object or a TraitError, the full "
